@@ -3,70 +3,122 @@
    is of the code after the fix commits: D13 (the server's tymeout reaches the
    Remoter), Remoter.refresh restarting the tymer from the current tyme, and
    RemoterTls refreshing on traffic like Remoter.  Virtual tyme is Z; a schedule
-   is the list of (tyme, client action) of the Server.service() passes after
-   the connection was accepted at tyme t0 by a server with tymeout T. *)
+   is the list of (tyme, client action, bytes the kernel accepts from a send)
+   of the Server.service() passes after the connection was accepted at tyme t0
+   by a server with tymeout T; R is the size of a response.
+
+   "Traffic" means bytes that actually moved.  The ghost field [last] is the
+   tyme of the latest pass in which bytes moved (C12_last_spec): something was
+   received, or output was pending and the kernel took some of it.  A send
+   attempt that the kernel refuses (would block) is not traffic. *)
 From Hio Require Import Base.Prelude Model.Idle Proofs.IdleProofs.
 Local Open Scope Z_scope.
 
-(* A connection that is not persistent and has had no traffic since tyme u
-   (u = last_rx t0 sched: the latest pass with traffic, or the accept tyme) is
-   closed by any service pass at a tyme >= u + T: in particular by the first
-   one.  For every tymeout T > 0, accept tyme, earlier history and pass
-   content (traffic arriving in that very pass comes too late). *)
-Theorem C12_closes : forall T t0 sched now a,
-  0 < T -> no_req sched = true -> last_rx t0 sched + T <= now ->
-  closed (pass now a (run (accept T t0) sched)) = true.
+(* what [last] is: the accept tyme at first, then the tyme of every pass in which bytes moved *)
+Theorem C12_last_spec : forall T t0 R p c,
+  last (accept T t0) = t0 /\
+  (closed (pass R p c) = false ->
+   last (pass R p c) = if moved R p c then fst (fst p) else last c).
+Proof. intros. split; [reflexivity|apply last_pass_open]. Qed.
+Print Assumptions C12_last_spec.
+
+(* A connection that never had a persistent request and on which no byte has
+   moved since tyme u = last c is closed by any service pass at a tyme >= u + T:
+   in particular by the first one.  For every tymeout T > 0, accept tyme,
+   response size, earlier history (including a queued, partly sent response)
+   and content of that pass (bytes arriving in that very pass come too late). *)
+Theorem C12_closes : forall T t0 R sched now a cap,
+  0 < T -> no_req sched = true ->
+  let c := run R (accept T t0) sched in
+  last c + T <= now -> closed (pass R (now, a, cap) c) = true.
 Proof. exact closes. Qed.
 Print Assumptions C12_closes.
 
 (* ... and it remains closed whatever follows *)
-Theorem C12_closes_for_good : forall T t0 sched now a rest,
-  0 < T -> no_req sched = true -> last_rx t0 sched + T <= now ->
-  closed (run (accept T t0) (sched ++ (now, a) :: rest)) = true.
+Theorem C12_closes_for_good : forall T t0 R sched now a cap rest,
+  0 < T -> no_req sched = true ->
+  last (run R (accept T t0) sched) + T <= now ->
+  closed (run R (accept T t0) (sched ++ (now, a, cap) :: rest)) = true.
 Proof. exact closes_for_good. Qed.
 Print Assumptions C12_closes_for_good.
 
-(* A connection for which every service pass comes less than T after the latest
-   traffic before it is never closed for idleness, at any point of the schedule. *)
-Theorem C12_safe : forall T t0 s1 s2,
-  busy T t0 (s1 ++ s2) -> closed (run (accept T t0) s1) = false.
+(* Pending output and only blocked send attempts since u: after any history and
+   then any number of passes in which the client is silent and the kernel
+   accepts nothing from the send attempts, the pass at tyme >= u + T closes the
+   connection; the blocked attempts changed neither the deadline reference nor
+   the pending output. *)
+Theorem C12_closes_blocked : forall T t0 R sched quiet now a cap,
+  0 < T -> no_req sched = true -> forallb blocked quiet = true ->
+  let c := run R (accept T t0) sched in
+  last c + T <= now ->
+  closed (pass R (now, a, cap) (run R c quiet)) = true /\
+  (closed (run R c quiet) = false -> last (run R c quiet) = last c /\ pend (run R c quiet) = pend c).
+Proof. exact closes_blocked. Qed.
+Print Assumptions C12_closes_blocked.
+
+(* A connection for which every service pass (while it is open) comes less than T
+   after the latest pass in which bytes moved is never closed for idleness, at
+   any point of the schedule (it may be closed because its non-persistent
+   response is completely out). *)
+Theorem C12_safe : forall T t0 R s1 s2,
+  busy R T (accept T t0) (s1 ++ s2) -> timedout (run R (accept T t0) s1) = false.
 Proof. exact safe_always. Qed.
 Print Assumptions C12_safe.
 
 (* The same with the property's wording: pass tymes do not go backwards and for
-   every pass there is traffic (or the accept) less than T before it, i.e.
+   every pass there is a receive (or the accept) less than T before it, i.e.
    there is traffic in every tymeout window. *)
-Theorem C12_safe_windows : forall T t0 sched,
-  sorted_from t0 sched -> windowed T [t0] sched -> closed (run (accept T t0) sched) = false.
+Theorem C12_safe_windows : forall T t0 R sched,
+  sorted_from t0 sched -> windowed T [t0] sched -> timedout (run R (accept T t0) sched) = false.
 Proof. exact safe_windows. Qed.
 Print Assumptions C12_safe_windows.
 
 (* Persistent connections (a completed keep-alive request zeroes the Remoter's
    tymeout) and servers with tymeout <= 0 never time a connection out. *)
-Theorem C12_persistent : forall T t0 s1 k now s2,
-  closed (run (accept T t0) (s1 ++ [(now, Req k)])) = false ->
-  closed (run (accept T t0) (s1 ++ (now, Req k) :: s2)) = false.
+Theorem C12_persistent : forall T t0 R s1 s2,
+  let c := run R (accept T t0) s1 in
+  persisted c = true -> timedout c = false -> timedout (run R (accept T t0) (s1 ++ s2)) = false.
 Proof. exact persistent_never. Qed.
 Print Assumptions C12_persistent.
 
-Theorem C12_disabled : forall T t0 sched, T <= 0 -> closed (run (accept T t0) sched) = false.
+Theorem C12_disabled : forall T t0 R sched, T <= 0 -> timedout (run R (accept T t0) sched) = false.
 Proof. exact disabled. Qed.
 Print Assumptions C12_disabled.
 
 (* Non-vacuity: T = 5, accepted at 0; a burst of 3 chunks at 1, one chunk at 4;
    still open at 8 (4 + 5 > 8), closed by the pass at 9. *)
 Example C12_closes_example :
-  let sched := [(0, Quiet); (1, Rx 3); (4, Rx 1); (8, Quiet)] in
-  no_req sched = true /\ last_rx 0 sched = 4 /\
-  closed (run (accept 5 0) sched) = false /\
-  closed (pass 9 (Rx 2) (run (accept 5 0) sched)) = true.
+  let sched := [(0, Quiet, 0%N); (1, Rx 3, 0%N); (4, Rx 1, 0%N); (8, Quiet, 0%N)] in
+  no_req sched = true /\ last (run 225 (accept 5 0) sched) = 4 /\
+  closed (run 225 (accept 5 0) sched) = false /\
+  closed (pass 225 (9, Rx 2, 0%N) (run 225 (accept 5 0) sched)) = true.
 Proof. vm_compute. repeat split. Qed.
 
+(* T = 5: a non-persistent request at 0 queues 225 bytes; the reader takes 40 at 0 and 7 at 2,
+   then stalls; the blocked attempts at 4 and 6 do not count, the pass at 7 = 2 + 5 closes it
+   with 178 bytes still pending. *)
+Example C12_blocked_example :
+  let sched := [(0, ReqClose 1, 40%N); (2, Quiet, 7%N)] in
+  let quiet := [(4, Quiet, 0%N); (6, Quiet, 0%N)] in
+  let c := run 225 (accept 5 0) sched in
+  no_req sched = true /\ forallb blocked quiet = true /\ last c = 2 /\ pend c = 178%N /\
+  closed (run 225 c quiet) = false /\ pend (run 225 c quiet) = 178%N /\
+  closed (pass 225 (7, Quiet, 1000%N) (run 225 c quiet)) = true /\
+  timedout (pass 225 (7, Quiet, 1000%N) (run 225 c quiet)) = true.
+Proof. vm_compute. repeat split. Qed.
+
+(* a slow but steady reader is never timed out; the connection is closed when the response is out *)
 Example C12_safe_example :
-  let sched := [(0, Rx 1); (3, Rx 1); (6, Rx 2); (9, Quiet); (9, Rx 1); (12, Quiet)] in
-  sorted_from 0 sched /\ windowed 4 [0] sched /\ closed (run (accept 4 0) sched) = false.
+  let sched := [(0, ReqClose 2, 100%N); (3, Quiet, 100%N); (6, Quiet, 100%N); (9, Quiet, 100%N)] in
+  busy 225 4 (accept 4 0) sched /\
+  closed (run 225 (accept 4 0) sched) = true /\ timedout (run 225 (accept 4 0) sched) = false.
+Proof. vm_compute. repeat split; intros; reflexivity || discriminate. Qed.
+
+Example C12_windows_example :
+  let sched := [(0, Rx 1, 0%N); (3, Rx 1, 0%N); (6, Rx 2, 0%N); (9, Quiet, 0%N); (9, Rx 1, 0%N); (12, Quiet, 0%N)] in
+  sorted_from 0 sched /\ windowed 4 [0] sched /\ closed (run 0 (accept 4 0) sched) = false.
 Proof.
-  cbn [sorted_from windowed has_traffic N.ltb N.compare]. repeat split; try lia.
+  cbn [sorted_from windowed has_traffic N.ltb N.compare fst snd]. repeat split; try lia.
   - exists 0. split; [now left|lia].
   - exists 0. split; [now left|lia].
   - exists 3. split; [now left|lia].
